@@ -41,9 +41,13 @@ def san_summary(err):
     return (" | ".join(l.strip() for l in lines[:5]) or txt[-300:])[:700]
 
 
-def run(cmd, env, timeout=TIMEOUT, cwd=None, stdout=subprocess.PIPE):
+def run(cmd, env, timeout=TIMEOUT, cwd=None, stdout=subprocess.PIPE, fsize=None):
+    pre = None
+    if fsize is not None:
+        import resource
+        pre = lambda: resource.setrlimit(resource.RLIMIT_FSIZE, (fsize, fsize))
     try:
-        r = subprocess.run(cmd, env=env, stdout=stdout, stderr=subprocess.PIPE, timeout=timeout, cwd=cwd)
+        r = subprocess.run(cmd, env=env, stdout=stdout, stderr=subprocess.PIPE, timeout=timeout, cwd=cwd, preexec_fn=pre)
         return r.returncode, r.stdout if stdout == subprocess.PIPE else b"", r.stderr
     except subprocess.TimeoutExpired as e:
         return None, b"", b"TIMEOUT after %d s" % timeout
@@ -90,7 +94,9 @@ def pack(env, case, wd, timeout=TIMEOUT):
         e["SOURCE_DATE_EPOCH"] = opts["sde"]
     cmd = [env.gen.encode()] + args + [img]
     t0 = time.time()
-    rc, out, err = run(cmd, e, timeout=timeout, stdout=subprocess.DEVNULL)
+    # a runaway packer must not fill the disk: no image is larger than twice its (non-hole) input plus slack
+    phys = sum(seg[1] for n in case.get("fs", []) for seg in (n.get("c") or []) if seg[0] != "h")
+    rc, out, err = run(cmd, e, timeout=timeout, stdout=subprocess.DEVNULL, fsize=2 * phys + (256 << 20))
     return {"rc": rc, "stderr": err, "img": img, "cmd": cmd, "t": time.time() - t0}
 
 
@@ -180,6 +186,17 @@ def read_a(env, case, img, exp, st):
                 bad.append(("a", "xattrs", G.s(p), xdiff(e.xattrs, gxd)))
     # contents, straight from the image bytes
     bs = sup["block_size"]
+    for p, e in exp.items():
+        o = got.get(p)
+        if o is not None and o["type"] == "file" and e.type == "file":
+            # doc/format.adoc: `sparse` = "number of bytes saved by omitting zero bytes" = the unpacked sizes of the blocks with size word 0
+            left, saved = o["size"], 0
+            for w in o["blocks"]:
+                n = min(bs, left)
+                saved += n if w == 0 else 0
+                left -= n
+            if (o.get("sparse") or 0) != saved:
+                bad.append(("a", "sparse-count", G.s(p), "inode says %s sparse bytes, its block list omits %d" % (o.get("sparse"), saved)))
     comp = COMP_ID.get(sup["compressor"], "?")
     with open(img, "rb") as f:
         size = os.fstat(f.fileno()).st_size
@@ -557,6 +574,9 @@ def read_d(env, img, exp, p, st):
             if not ch:
                 break
             h.update(ch); n += len(ch)
+            if n > e.size() + (1 << 20):
+                proc.kill()
+                return [("d", "content", G.s(p), "-c wrote more than %d bytes, expected %d (stopped reading)" % (n, e.size()))]
             if time.time() - t0 > 4 * TIMEOUT:
                 proc.kill()
                 return [("d", "crash", G.s(p), "rdsquashfs -c: timeout")]
@@ -612,12 +632,19 @@ def read_e(env, case, img, exp, wd, st):
     if any(len(c) > 255 for p in exp for c in p.split(b"/")):
         st["e_skipped"] = "a name longer than NAME_MAX (255) cannot be created on the scratch file system"
         return bad
+    if any(len(p) > 3900 for p in exp):
+        st["e_skipped"] = "a path longer than PATH_MAX cannot be created by rdsquashfs -u (it uses full relative paths)"
+        return bad
     fl, x_ok = unpack_flags(exp, env.caps)
     if not env.caps.get("mknod_dev") and any(e.type in ("cdev", "bdev") for e in exp.values()):
         fl.append("-D")
     if any(e.type == "slink" and len(e.target) > 4095 for e in exp.values()):
         fl.append("-L")            # symlink(2) refuses targets of PATH_MAX bytes and more: such trees are unpacked without symlinks
-    rc, out, err = run([env.rd, "-q", "-u", "/", "-p", dst] + fl + [img], env.san, timeout=4 * TIMEOUT)
+    biggest = max([e.size() for e in exp.values() if e.type == "file"] + [0])
+    rc, out, err = run([env.rd, "-q", "-u", "/", "-p", dst] + fl + [img], env.san, timeout=4 * TIMEOUT, fsize=biggest + (1 << 20))
+    if rc == -25:
+        shutil.rmtree(dst, ignore_errors=True)
+        return [("e", "content", "", "rdsquashfs -u wrote a file larger than the largest input file (%d bytes): stopped by RLIMIT_FSIZE" % biggest)]
     if crashed(rc, err):
         return [("e", "crash", "", "rdsquashfs -u: rc=%s %s" % (rc, san_summary(err)))]
     if rc != 0:
